@@ -79,6 +79,16 @@ PROPS = {
         "level_text": "Theorems for all states / op sequences: merge of a layer is key by key (null, zero, false, empty string and lists override; untouched keys keep the lower value), the effective value of each field is Secret else ConfigMap else default, decoding is all-or-nothing and field by field, a source's content is its latest fully parsed event, a read returns the full decode of the current layering or exactly the last successful read of that kind or an error, and recovers at once. Model tied to the real loaders and manager by the config stream with an independent field-wise / last-known-good monitor.",
         "level_note": "Trusted: Coq kernel + vm_compute; YAML/base64 parsers as exercised oracles; verif hooks for synchronous event delivery.",
     },
+    "C17": {
+        "props_file": "Props/C17.v",
+        "theorems": ["c17_accepted_loadable", "c17_accepted_instantiable", "c17_accepted_parts", "c17_update_immutable", "c17_update_accepts_unchanged"],
+        "families": [{"name": "validate", "n_quick": 2500, "n_thorough": 50000}],
+        "rule": "validate: three kinds of case. (1) a JobConfig (names incl. 49/50 chars; all concurrency policies and maxConcurrency values; schedule absent / without cron / disabled / singular expression / expressions list / both, from a pool of 12 parsable and 9 unparsable expressions incl. blank entries, H forms, quartz 6-7 fields; 10 time zones; 0-3 options of the five types, valid and invalid, duplicate/invalid names, foreign configs; templates with in- and out-of-range maxAttempts / retryDelay / pendingTimeout, parallelism of every shape and completion strategy, Pod templates valid/invalid with every restartPolicy) under a random cron dynamic configuration (format, hashNames, hashSeconds, hashFields, default time zone), mutated then validated as the webhooks do; then cronschedule.New + Bump, NewJobFromJobConfig; for accepted ones additionally a Job by configName with values for the required options through JobPatcher, ValidateJob/ValidateJobCreate and NewPod per index. (2) a Job through ValidateJob. (3) an (old, new) pair differing in random subsets of the ten immutable fields (variants with known Semantic.DeepEqual classes, nil vs empty map), the kill timestamp relative to the clock, started or not, plus mutable fields. non-trivial = accepted; distinct by term",
+        "trusted": ["oracles, shipped per case as tables computed with the same functions the code calls: cron.Parser.Parse (furiko-io/cronexpr) for hash ids \"\" and the JobConfig key, tzutils.ParseTimezone, validation.ValidatePodTemplateSpec (Kubernetes core validation) per restartPolicy, the withMatrix key regexp", "unknown option types are not generated"],
+        "assumptions": ["c17_accepted_loadable assumes that whether an expression parses does not depend on the hash id (validation uses the empty id, the scheduler the JobConfig key) and that the configured default time zone parses; the first is checked by the stream on every generated expression (signature C17/parsability-depends-on-hash-id), the second is an operator input", "validation and loading are compared under one dynamic configuration; a configuration change between admission and loading is outside the statement", "'the instantiated Job passes defaulting and validation and yields tasks' is judged by the monitor on the real Mutator/Validator/NewPod for every accepted JobConfig; as theorems: the schedule loads, the defaults render, the template is the validated one"],
+        "level_text": "Theorems for all specs and oracle verdicts: an accepted JobConfig loads in the scheduler under its own key and its option defaults render (so NewJobFromJobConfig cannot fail and one accepted object cannot abort cronschedule.New); acceptance decomposes into name length, template, concurrency, schedule and option rules; an accepted Job update changes none of the ten immutable fields, freezes the start policy once started and the kill timestamp once passed, and conversely an update changing none of them is accepted. The decision structure of Validator and of the loader is tied to the code by the validate stream; the end-to-end clause is judged by the monitor on the real consumers.",
+        "level_note": "Trusted: Coq kernel + vm_compute; the oracles above.",
+    },
     "C05": {
         "props_file": "Props/C05.v",
         "theorems": ["c05_pass_bound", "c05_no_double_increment", "c05_release_on_finish", "c05_release_on_delete", "c05_store_steps", "c05_rollback", "c05_recover"],
